@@ -148,7 +148,7 @@ PROPS['C18'] = dict(
     assumptions=['actions do not (un)register objects on the scheduler they run under', 'exact time arithmetic'],
 )
 PROPS['C19'] = dict(
-    modules=['SimProc.Props.C19', 'SimProc.Props.C19W', 'SimProc.Props.C18W'], prop_files=['SimProc/Props/C19.lean', 'SimProc/Props/C19W.lean', 'SimProc/Props/C18W.lean'],
+    modules=['SimProc.Props.C19', 'SimProc.Props.C19W', 'SimProc.Props.C18W', 'SimProc.Props.C19D'], prop_files=['SimProc/Props/C19.lean', 'SimProc/Props/C19W.lean', 'SimProc/Props/C18W.lean', 'SimProc/Props/C19D.lean'],
     # sys: sensors constructed while the simulation runs (first sample one interval after construction)
     families=[('sensor', 300, 6000), ('sys', 80, 1500)], impl_only_families=[('sensordec', 150, 3000)],
     tags=tags(*BASE, 'n'),
